@@ -2,10 +2,12 @@
 # usage: lib/runall.sh quick|thorough [seed]   -- runs every check, prints one line each
 tier=${1:-quick}; seed=${2:-1}
 cd "$(dirname "$0")/.."
+bad=0
 for id in C01 C02 C03 C04 C05 C06 C07 C08 C09 C10 C11 C12 C13 C14 C15 C16 C17 C18 C19 C20; do
   s=$(date +%s)
   out=$(VERIF_SEED=$seed ./check $id $tier 2>&1); rc=$?
   e=$(date +%s)
   echo "$id rc=$rc $((e-s))s $(echo "$out" | tail -1)"
-  [ $rc -ne 0 ] && echo "$out" | grep -E "VIOLATION|INCONCLUSIVE|key=" | head -6
+  if [ $rc -ne 0 ]; then bad=1; echo "$out" | grep -E "VIOLATION|INCONCLUSIVE|key=" | head -6; fi
 done
+exit $bad
